@@ -49,6 +49,10 @@ CaseOf(g, ins, feat) ==
                                           ELSE LET ax == (q - 1) % (Len(g.inputs[q].dims) + 1) IN
                                                [name |-> g.inputs[q].name, axis |-> ax, r |-> InputDimSize(g.inputs, g.inputs[q].name, ax)]]]]]
 
+\* the same case preceded by a call without any input (rejected, or accepted when nothing is required): what a rejected call
+\* leaves behind must not weaken the checks of the next one
+CaseAfterEmptyCall(g, ins, feat) ==
+   [CaseOf(g, ins, feat \o <<"after_empty_call">>) EXCEPT !.x.calls = <<CallJ(g, <<>>), CallJ(g, ins)>>]
 Supply(names, shapes) == [nm \in names |-> Iota("f32", shapes[nm], 0)]
 
 \* one input: every declared signature x every supplied variant; several inputs: one input varied at a time, names missing / extra / shadowed
@@ -69,7 +73,8 @@ Many(dims) ==
    /\ \A i \in 1..n :
          /\ P(CaseOf(g, Supply(names \ {InName(i)}, good), <<"many_inputs", "one_missing">>))
          /\ \A sh \in {[ConformShape(dims[i]) EXCEPT ![Len(dims[i])] = 7], ConformShape(dims[i]) \o <<1>>} :
-               P(CaseOf(g, Supply(names, [good EXCEPT ![InName(i)] = sh]), <<"many_inputs", "one_varied">>))
+               /\ P(CaseOf(g, Supply(names, [good EXCEPT ![InName(i)] = sh]), <<"many_inputs", "one_varied">>))
+               /\ P(CaseAfterEmptyCall(g, Supply(names, [good EXCEPT ![InName(i)] = sh]), <<"many_inputs", "one_varied">>))
    /\ (n >= 2 => P(CaseOf(g, Supply(names, [good EXCEPT ![InName(1)] = ConformShape(dims[1]) \o <<1>>, ![InName(2)] = <<>>]), <<"many_inputs", "two_wrong">>)))
    /\ LET gs == GraphOf(dims, {n}) IN P(CaseOf(gs, Supply(names \ {InName(n)}, good), <<"many_inputs", "last_shadowed">>))
    \* an initializer-backed input at ANY position of the declaration order; the other inputs conforming, missing or varied
